@@ -37,7 +37,15 @@ SEC = 10**6
 def cases() -> Any:
     def fin(d: Dict[str, Any]) -> Dict[str, Any]:
         now = d["now"]
-        if d["pin"]:
+        anc = d.pop("anchor")
+        if anc is not None and d["tz"].get("name"):
+            # `now` inside the hour BEFORE a daylight-saving transition of T's own zone (in autumn: the first pass through the repeated hour)
+            from vt.props import c13
+
+            trs = [t_ for t_ in c13.transitions(d["tz"]["name"]) if N0 <= t_ <= N1]
+            if trs:
+                now = trs[anc["k"] % len(trs)] - anc["back_s"] * SEC + d["pus"]
+        elif d["pin"]:
             now = now // MIN * MIN + d["psec"] * SEC + d["pus"]
         nb = (now // MIN + 1) * MIN
         kind, v = d["delta"]
@@ -55,6 +63,9 @@ def cases() -> Any:
             st.integers(-14 * 60, 14 * 60).map(lambda m: m * 60), st.integers(-86399, 86399))}),
         st.fixed_dictionaries({"k": st.just("zoneinfo"), "name": st.sampled_from(ZONES)}),
         st.fixed_dictionaries({"k": st.just("pytz"), "name": st.sampled_from(ZONES)}),
+        # the (common) pytz mistake: the zone is attached with tzinfo= instead of localize(): Python then uses the zone's first
+        # (local mean time) offset - whatever instant that denotes is the instant the value is compared as
+        st.fixed_dictionaries({"k": st.just("pytz_attached"), "name": st.sampled_from(ZONES + ["Europe/Warsaw", "Europe/Amsterdam"])}),
     )
     return st.fixed_dictionaries({
         "now": st.integers(N0, N1),
@@ -64,6 +75,7 @@ def cases() -> Any:
             st.tuples(st.just("near"), st.integers(-5 * SEC, 70 * SEC)), st.tuples(st.just("near"), st.integers(-5, 70).map(lambda s: s * SEC)),
             st.tuples(st.just("far"), st.integers(-2 * 86400 * SEC, 2 * 86400 * SEC))),
         "whole": st.integers(-3, 50), "usewhole": st.sampled_from([0, 0, 1]),
+        "anchor": st.one_of(st.none(), st.none(), st.fixed_dictionaries({"k": st.integers(0, 60), "back_s": st.integers(1, 3599)})),
         "tz": tzs,
         # a `cron_offset` on a schedule that has a `time` (the label source copies it from the entry): it belongs to cron
         # expressions and must not move the instant a one-shot is compared with
@@ -87,6 +99,9 @@ def present(T: dtm.datetime, tz: Dict[str, Any]) -> dtm.datetime:
         return T.astimezone(dtm.timezone(dtm.timedelta(seconds=tz["sec"])))
     if k == "zoneinfo":
         return T.astimezone(zoneinfo.ZoneInfo(tz["name"]))
+    if k == "pytz_attached":
+        z = pytz.timezone(tz["name"])
+        return T.astimezone(z).replace(tzinfo=None).replace(tzinfo=z)
     return T.astimezone(pytz.timezone(tz["name"]))
 
 
@@ -98,6 +113,9 @@ def run_case(case: Dict[str, Any]) -> Outcome:
     n, delta = case["now_us"], case["delta_us"]
     t = n + delta
     T = present(clock.from_us(t), case["tz"])
+    if case["tz"]["k"] == "pytz_attached":
+        t = clock.to_us(T)          # the instant the presented value really denotes
+        delta = t - n
     coff = case.get("coff")
     co: Any = None if not coff else (dtm.timedelta(seconds=coff["td_s"]) if "td_s" in coff else coff["zone"])
     task = ScheduledTask(task_name="t", labels={}, args=[], kwargs={}, time=T, cron_offset=co)
